@@ -460,6 +460,7 @@ Fixpoint p_command (fuel : nat) (s : pst) {struct fuel} : pres stmt :=
        else if is_mark s "[" then let! (c, s1) := p_call f s in POk (SCall (fst (fst c)) (snd (fst c)) (snd c)) s1
        else perr s)
     else if token_type_eqb t TT_RETURN then
+      if negb (p_in_routine s) then perr s else
       let s1 := next s in
       if at_rvalue s1 true then let! (v, s2) := p_rvalue f s1 in POk (SReturn (Some v)) s2 else POk (SReturn None) s1
     else if token_type_eqb t TT_IF then
